@@ -6,7 +6,10 @@ export GOFLAGS=-mod=mod GOPROXY=off GOSUMDB=off GOTOOLCHAIN=local
 export GOCACHE="${GOCACHE:-/verif/.cache/go-build}"
 [ -f go.sum ] || cp /repo/go.sum go.sum 2>/dev/null || true
 mkdir -p bin evidence replays
-go build -tags verif -o bin/vcheck.setup ./cmd/vcheck
-rm -f bin/vcheck.setup
-go test -tags verif -vet=off -count=1 ./internal/... > bin/selftest.log 2>&1 || { cat bin/selftest.log; exit 1; }
+OVL="$(tools/overlay.sh /verif/.work/overlay.setup)"
+go build -tags verif -overlay "$OVL" -o bin/vcheck.setup ./cmd/vcheck
+go build -race -gcflags=all=-d=checkptr=0 -tags verif -overlay "$OVL" -o bin/racepass.setup ./cmd/racepass   # warms the -race build cache
+rm -f bin/vcheck.setup bin/racepass.setup
+go test -tags verif -vet=off -overlay "$OVL" -count=1 ./internal/... > bin/selftest.log 2>&1 || { cat bin/selftest.log; exit 1; }
+rm -rf /verif/.work/overlay.setup
 echo "setup ok"
